@@ -234,28 +234,31 @@ theorem findTrial_fresh (st : Study) (t : Trial) (hid : t.id = st.maxTrialId + 1
   simp
 
 /-- the trial `CreateTrial` stores for a request trial `p` -/
-def created (st : Study) (p : Trial) : Trial :=
-  { p with id := st.maxTrialId + 1, state := if p.state == .succeeded then .succeeded else .requested, client := "" }
+def created (keepInf : Bool) (st : Study) (p : Trial) : Trial :=
+  { p with id := st.maxTrialId + 1,
+           state := if p.state == .succeeded then .succeeded
+                    else if keepInf && p.state == .infeasible then .infeasible else .requested,
+           client := "" }
 
 theorem createTrial_step (cfg : Cfg) {db : DB} {h : Handle} {st : Study} (hs : findStudy db h.owner h.sid = some st)
     (hopen : st.immutable = false) (p : Trial) :
-    step cfg db (.createTrial h.owner h.sid p) = (.trial (created st p), putStudy db (st.addTrial (created st p))) := by
+    step cfg db (.createTrial h.owner h.sid p) = (.trial (created cfg.createKeepsInfeasible st p), putStudy db (st.addTrial (created cfg.createKeepsInfeasible st p))) := by
   simp only [step]
   rw [onStudy_open _ hs hopen]
   rfl
 
 theorem added_ok {db db0 : DB} {h : Handle} {st : Study} (hs0 : findStudy db0 h.owner h.sid = some st)
-    (hs : findStudy db h.owner h.sid = some st) (hopen : st.immutable = false) (p : Trial) (completed : Bool)
-    (hstate : (created st p).state = (if completed then TState.succeeded else TState.requested)) :
-    addedOK db0 (putStudy db (st.addTrial (created st p))) h p.params completed (.handle (created st p).id) = true := by
-  have hf := findTrial_fresh st (created st p) rfl
+    (hs : findStudy db h.owner h.sid = some st) (hopen : st.immutable = false) (k : Bool) (p : Trial) (completed : Bool)
+    (hstate : (created k st p).state = (if completed then TState.succeeded else TState.requested)) :
+    addedOK db0 (putStudy db (st.addTrial (created k st p))) h p.params completed (.handle (created k st p).id) = true := by
+  have hf := findTrial_fresh st (created k st p) rfl
   have ho : openStudy db0 h = true := by unfold openStudy; rw [hs0]; simp [hopen]
   unfold addedOK
   rw [ho]
   simp only [Bool.not_true, Bool.false_or]
-  rw [lookup_putStudy (st' := st.addTrial (created st p)) hs ⟨(handle_key hs).1, (handle_key hs).2⟩, hf.2,
+  rw [lookup_putStudy (st' := st.addTrial (created k st p)) hs ⟨(handle_key hs).1, (handle_key hs).2⟩, hf.2,
     lookup_of_find hs0, hf.1]
-  have hp : (created st p).params = p.params := rfl
+  have hp : (created k st p).params = p.params := rfl
   simp [hstate, hp]
 
 theorem request_addedOK (cfg : Cfg) (fuel : Nat) (h : Handle) (params : Nat) (md : MD) (db : DB) :
@@ -267,15 +270,15 @@ theorem request_addedOK (cfg : Cfg) (fuel : Nat) (h : Handle) (params : Nat) (md
     obtain ⟨st, hs, hopen⟩ := openStudy_spec ho
     have hstep := createTrial_step cfg hs hopen (protoTrial params .requested none md)
     have hdb : (clientExec cfg fuel h (.request params md) db).db =
-        putStudy db (st.addTrial (created st (protoTrial params .requested none md))) := by
+        putStudy db (st.addTrial (created cfg.createKeepsInfeasible st (protoTrial params .requested none md))) := by
       show (step cfg db (.createTrial h.owner h.sid (protoTrial params .requested none md))).2 = _
       rw [hstep]
     have hobs : (clientExec cfg fuel h (.request params md) db).obs =
-        .handle (created st (protoTrial params .requested none md)).id := by
+        .handle (created cfg.createKeepsInfeasible st (protoTrial params .requested none md)).id := by
       simp only [clientExec, rpc1, hstep]
       rfl
     rw [hdb, hobs]
-    exact added_ok hs hs hopen (protoTrial params .requested none md) false rfl
+    exact added_ok hs hs hopen _ (protoTrial params .requested none md) false (by cases cfg.createKeepsInfeasible <;> rfl)
 
 theorem addTrial_addedOK (cfg : Cfg) (fuel : Nat) (h : Handle) (params : Nat) (final : Option Meas) (db : DB) :
     addedOK db (clientExec cfg fuel h (.addTrial params final true) db).db h params final.isSome
@@ -291,15 +294,15 @@ theorem addTrial_addedOK (cfg : Cfg) (fuel : Nat) (h : Handle) (params : Nat) (f
     let p := protoTrial params (addedState final) final []
     have hstep := createTrial_step cfg hs1 hopen p
     have hexec : clientExec cfg fuel h (.addTrial params final true) db =
-        { obs := .handle (created st p).id,
+        { obs := .handle (created cfg.createKeepsInfeasible st p).id,
           reqs := [Req.getStudy h.owner h.sid, Req.createTrial h.owner h.sid p],
-          db := putStudy (putStudy db st) (st.addTrial (created st p)) } := by
+          db := putStudy (putStudy db st) (st.addTrial (created cfg.createKeepsInfeasible st p)) } := by
       simp only [clientExec, hget, raised, Bool.not_true, Bool.false_eq_true, if_false]
       rw [hstep]
       rfl
     rw [hexec]
-    apply added_ok hs hs1 hopen p final.isSome
-    cases final <;> rfl
+    apply added_ok hs hs1 hopen cfg.createKeepsInfeasible p final.isSome
+    cases final <;> cases cfg.createKeepsInfeasible <;> rfl
 
 theorem addTrial_outOfSpaceOK (cfg : Cfg) (fuel : Nat) (h : Handle) (params : Nat) (final : Option Meas) (db : DB) :
     outOfSpaceOK db h (clientExec cfg fuel h (.addTrial params final false) db).obs = true := by
